@@ -6,7 +6,7 @@ idx = []
 for p in sorted(glob.glob(os.path.join(V, "coq", "Properties", "C*.v"))):
     pid = os.path.basename(p)[:-2]
     txt = open(p, encoding="utf-8").read()
-    items = re.findall(r"\(\*\* (.*?) \*\)\s*\nTheorem (\w+)", txt, re.S)
+    items = re.findall(r"\(\*\* ((?:(?!\(\*\*).)*?) \*\)\s*\nTheorem (\w+)", txt, re.S)
     idx.append("**%s** (%d theorems)\n" % (pid, len(re.findall(r"^Theorem ", txt, re.M))))
     for doc, name in items:
         idx.append("- `%s` — %s" % (name, " ".join(doc.split())[:260]))
